@@ -28,6 +28,9 @@ K32_FUNCS = [dict(fn='secp256k1_scalar_mul_512', short='scalar8x32_mul_512', def
              dict(fn='secp256k1_fe_impl_mul_int_unchecked', short='fe10x26_mul_int', defines=W32), dict(fn='secp256k1_fe_impl_half', short='fe10x26_half', defines=W32),
              dict(fn='secp256k1_gej_double', short='gej_double32', defines=W32, style='bind', flatten=True, inl=['secp256k1_fe_impl_mul', 'secp256k1_fe_impl_sqr'],
                   cps=['fe10x26_mul_inner', 'fe10x26_sqr_inner', 'fe10x26_add', 'fe10x26_negate', 'fe10x26_half', 'fe10x26_mul_int']),
+             dict(fn='secp256k1_fe_impl_normalizes_to_zero', short='fe10x26_ntz', defines=W32), dict(fn='secp256k1_fe_impl_cmov', short='fe10x26_cmov', defines=W32),
+             dict(fn='secp256k1_gej_add_ge', short='gej_add_ge32', defines=W32, style='bind', flatten=True, inl=['secp256k1_fe_impl_mul', 'secp256k1_fe_impl_sqr'],
+                  cps=['fe10x26_mul_inner', 'fe10x26_sqr_inner', 'fe10x26_add', 'fe10x26_negate', 'fe10x26_half', 'fe10x26_mul_int', 'fe10x26_cmov', 'fe10x26_ntz']),
              dict(fn='secp256k1_scalar_mul', short='scalar8x32_mul', defines=W32, style='bind', cps=['scalar8x32_mul_512', 'scalar8x32_reduce_512']),
              dict(fn='secp256k1_scalar_sqr', short='scalar8x32_sqr', defines=W32, style='bind', cps=['scalar8x32_sqr_512', 'scalar8x32_reduce_512'])]
 K32_PROOFS = [('scalar8x32_mul_512', 'Kernel/Scalar8x32Mul512.vo', 'scalar8x32_mul_512_correct'),
@@ -37,9 +40,10 @@ K32_PROOFS = [('scalar8x32_mul_512', 'Kernel/Scalar8x32Mul512.vo', 'scalar8x32_m
               ('fe10x26_mul_inner', 'Kernel/Field10x26.vo', 'fe10x26_mul_inner_correct'), ('fe10x26_sqr_inner', 'Kernel/Field10x26.vo', 'fe10x26_sqr_inner_correct'),
               ('scalar8x32_mul', 'Kernel/Scalar8x32Mul.vo', 'scalar8x32_mul_correct'), ('scalar8x32_sqr', 'Kernel/Scalar8x32Mul.vo', 'scalar8x32_sqr_correct'),
               ('fe10x26_add', 'Kernel/Field10x26Wp.vo', 'fe10x26_add_wp'), ('fe10x26_negate', 'Kernel/Field10x26Wp.vo', 'fe10x26_negate_wp'), ('fe10x26_mul_int', 'Kernel/Field10x26Wp.vo', 'fe10x26_mul_int_wp'),
-              ('fe10x26_half', 'Kernel/Field10x26Wp.vo', 'fe10x26_half_wp'), ('gej_double32', 'Kernel/GejDouble32.vo', 'gej_double32_correct')]
+              ('fe10x26_half', 'Kernel/Field10x26Wp.vo', 'fe10x26_half_wp'), ('gej_double32', 'Kernel/GejDouble32.vo', 'gej_double32_correct'),
+              ('fe10x26_ntz', 'Kernel/Field10x26Ntz.vo', 'fe10x26_ntz_correct'), ('fe10x26_cmov', 'Kernel/Field10x26Ntz.vo', 'fe10x26_cmov_wp'), ('gej_add_ge32', 'Kernel/GejAddGe32.vo', 'gej_add_ge32_correct')]
 K32_SHAPES = {'scalar8x32_mul_512': 16, 'scalar8x32_sqr_512': 8, 'scalar8x32_reduce_512': 16, 'scalar8x32_check_overflow': 8, 'scalar8x32_mul': 16, 'scalar8x32_sqr': 8, 'fe10x26_mul_inner': 'F20', 'fe10x26_sqr_inner': 'F10',
-              'fe10x26_add': 'F20', 'fe10x26_negate': 'F10M', 'fe10x26_mul_int': 'F10M', 'fe10x26_half': 'F10', 'gej_double32': 'IF30'}
+              'fe10x26_add': 'F20', 'fe10x26_negate': 'F10M', 'fe10x26_mul_int': 'F10M', 'fe10x26_half': 'F10', 'gej_double32': 'IF30', 'fe10x26_ntz': 'F10', 'fe10x26_cmov': 'F20I', 'gej_add_ge32': 'IF50'}
 N32 = [0xD0364141, 0xBFD25E8C, 0xAF48A03B, 0xBAAEDCE6, 0xFFFFFFFE, 0xFFFFFFFF, 0xFFFFFFFF, 0xFFFFFFFF]
 def raw32_inputs(rng, n):
     if isinstance(n, str):      # 10x26 field limbs within the magnitude contract: below 2^30, every tenth below 2^26; I = a flag first, M = a small integer last
@@ -47,6 +51,7 @@ def raw32_inputs(rng, n):
         if n.startswith('I'): out.append(rng.below(2)); n = n[1:]
         tail = []
         if n.endswith('M'): tail = [rng.choice([1, 2, 3, 8, 31])]; n = n[:-1]
+        elif n.endswith('I') and len(n) > 1: tail = [rng.below(2)]; n = n[:-1]
         if tail or out: return out + raw32_inputs(rng, n) + tail
         for j in range(int(n[1:])):
             w = 26 if j % 10 == 9 else 30
@@ -135,7 +140,7 @@ def proof_obligations(chk):
     bad = [k for k, (ok, m) in results.items() if not ok]
     chk.obligation('kernel functions translate from the working tree (%d translations)' % len(results), not bad, ', '.join(bad))
     proofs = [(fn.replace('secp256k1_', ''), vo, thm) for fn, (vo, thm) in PROOFS.items()] + [(f.replace('secp256k1_', ''), vo, thm) for f, vo, thm in CT_PROOFS] + list(K64_PROOFS) + list(K32_PROOFS)
-    rc, log = vlib.coq_make(sorted(set(vo for _, vo, _ in proofs)), timeout=int(os.environ.get('VERIF_KERNEL_TIMEOUT', '480')) * 2)
+    rc, log = vlib.coq_make(sorted(set(vo for _, vo, _ in proofs)), timeout=int(os.environ.get('VERIF_KERNEL_TIMEOUT', '750')) * 2)
     stale = []
     for short, vo, thm in proofs:
         gv = os.path.join(vlib.COQ, 'Gen', short + '.v'); vop = os.path.join(vlib.COQ, vo)
@@ -255,7 +260,7 @@ def single_obligation(chk, fn):
     chk.obligation('translate %s from the working tree' % fn, ok, msg)
     for f, vo, thm in CT_PROOFS:
         if f != fn or not ok: continue
-        rc, log = vlib.coq_make([vo], timeout=int(os.environ.get('VERIF_KERNEL_TIMEOUT', '480')))
+        rc, log = vlib.coq_make([vo], timeout=int(os.environ.get('VERIF_KERNEL_TIMEOUT', '750')))
         gv = os.path.join(vlib.COQ, 'Gen', fn.replace('secp256k1_', '') + '.v'); vop = os.path.join(vlib.COQ, vo)
         chk.obligation('kernel theorem %s over regenerated %s' % (thm, fn), os.path.exists(vop) and os.path.getmtime(vop) >= os.path.getmtime(gv), log[-3000:])
 
@@ -275,14 +280,14 @@ def kernel_obligations(chk):
     for fn, (ok, msg) in res.items():
         chk.obligation('translate ' + fn + ' from the working tree', ok, msg)
     targets = sorted(set(PROOFS[fn][0] for fn in FUNCS if res[fn][0]))
-    rc, log = vlib.coq_make(targets, timeout=int(os.environ.get('VERIF_KERNEL_TIMEOUT', '480')))
+    rc, log = vlib.coq_make(targets, timeout=int(os.environ.get('VERIF_KERNEL_TIMEOUT', '750')))
     for fn in FUNCS:
         if not res[fn][0]: continue
         vo, thm = PROOFS[fn]
         built = os.path.exists(os.path.join(vlib.COQ, vo)) and os.path.getmtime(os.path.join(vlib.COQ, vo)) >= os.path.getmtime(os.path.join(vlib.COQ, 'Gen', fn.replace('secp256k1_', '') + '.v'))
         chk.obligation('kernel theorem %s over regenerated %s' % (thm, fn), built and ('Error' not in log or rc == 0), log[-3000:])
     tg = sorted(set(vo for fn, vo, thm in CT_PROOFS if ctres.get(fn, (False,))[0]))
-    rc2, log2 = vlib.coq_make(tg, timeout=int(os.environ.get('VERIF_KERNEL_TIMEOUT', '480')))
+    rc2, log2 = vlib.coq_make(tg, timeout=int(os.environ.get('VERIF_KERNEL_TIMEOUT', '750')))
     for fn, vo, thm in CT_PROOFS:
         if not ctres.get(fn, (False,))[0]: continue
         gv = os.path.join(vlib.COQ, 'Gen', fn.replace('secp256k1_', '') + '.v'); vop = os.path.join(vlib.COQ, vo)
@@ -295,7 +300,7 @@ def kernel_obligations(chk):
         if key.startswith('k64_'): continue      # the same translations as above, listed again only as callees
         chk.obligation('translate %s (bind style / calls kept) from the working tree' % key, ok, msg)
     tg4 = sorted(set(vo for key, vo, thm in K64_PROOFS if k64.get(key, (False,))[0]))
-    rc4, log4 = vlib.coq_make(tg4, timeout=int(os.environ.get('VERIF_KERNEL_TIMEOUT', '480')))
+    rc4, log4 = vlib.coq_make(tg4, timeout=int(os.environ.get('VERIF_KERNEL_TIMEOUT', '750')))
     for key, vo, thm in K64_PROOFS:
         if not k64.get(key, (False,))[0]: continue
         gv = os.path.join(vlib.COQ, 'Gen', key + '.v'); vop = os.path.join(vlib.COQ, vo)
@@ -306,7 +311,7 @@ def kernel_obligations(chk):
     for key, (ok, msg) in k32.items():
         chk.obligation('translate %s (8x32 scalar code, USE_FORCE_WIDEMUL_INT64) from the working tree' % key, ok, msg)
     tg3 = sorted(set(vo for key, vo, thm in K32_PROOFS if k32.get(key, (False,))[0]))
-    rc3, log3 = vlib.coq_make(tg3, timeout=int(os.environ.get('VERIF_KERNEL_TIMEOUT', '480')) * 2)
+    rc3, log3 = vlib.coq_make(tg3, timeout=int(os.environ.get('VERIF_KERNEL_TIMEOUT', '750')) * 2)
     for key, vo, thm in K32_PROOFS:
         if not k32.get(key, (False,))[0]: continue
         gv = os.path.join(vlib.COQ, 'Gen', key + '.v'); vop = os.path.join(vlib.COQ, vo)
